@@ -598,6 +598,11 @@ type caseOut struct {
 	Held     int              `json:"held"`
 }
 
+// closeCluster shuts the case's cluster down. It is called after the result has
+// been written and is bounded: an rqlite node whose write queue is retrying a
+// refused batch can block in Service.Close for ever.
+var closeCluster = func() {}
+
 func worker(args []string) {
 	// args: caseFile dir outFile seed
 	b, err := os.ReadFile(args[0])
@@ -613,6 +618,14 @@ func worker(args []string) {
 	out := runCase(cd, args[1], seed)
 	ob, _ := json.Marshal(out)
 	os.WriteFile(args[2], ob, 0644)
+	done := make(chan struct{})
+	go func() { closeCluster(); close(done) }()
+	select {
+	case <-done:
+	case <-time.After(20 * time.Second):
+		fmt.Fprintln(os.Stderr, "cluster shutdown did not finish within 20 s; exiting")
+	}
+	os.Exit(0)
 }
 
 func runCase(cd caseDef, dir string, seed int64) (out caseOut) {
@@ -629,7 +642,7 @@ func runCase(cd caseDef, dir string, seed int64) (out caseOut) {
 	}
 	base := filepath.Join(dir, dirCanary)
 	cl := hcluster.New(base)
-	defer cl.Close()
+	closeCluster = cl.Close // the caller closes it after the result is written
 	opt := func(id string, open bool) hcluster.Options {
 		o := hcluster.Options{ID: id, HeartbeatTimeout: 1500 * time.Millisecond, ElectionTimeout: 1500 * time.Millisecond, LeaderLease: time.Second,
 			SnapshotInterval: time.Hour, NoSnapshotOnClose: true, ReapThreshold: 1 << 20,
